@@ -182,6 +182,11 @@ EDGE = [
     "select * from int1.t1 join proj.pred2 as m where m.c = 1 and m.C = 2 and m.a = 3 and m.a = 4",
     "select * from int1.t1 join proj.pred as m on t1.a = m.a and t1.b = m.c where m.a = 1 using A=1, a=2, m.B=3",
     "select * from proj.pred as m join int1.t1 where m.a = 1 and t1.b = 2",
+    # the model is joined to something that is not a plain table: the ON equalities are its column mapping all the same
+    "select * from (select * from int1.t1 where a > 0) as s join proj.pred as m on m.a = s.b and s.c = m.c",
+    "select * from (select * from int1.t1) as s join proj.pred as m on s.a = m.a where m.b = 1",
+    "select * from int1.t1 as t join proj.pred as m join proj.pred2 as m2 on m2.a = m.c",
+    "select * from int1.t1 as t join (select * from int2.t2) as s on s.a = t.a join proj.pred as m on m.a = s.b and m.b = t.c",
     "select * from int1.t1 join proj.pred3 as m where m.b = 1 and m.c = 2 and m.bc = 3 and m.a = 4",
     "select * from int1.t1 join proj.pred3 as m where m.B = 1 and m.BC = 3",
     "select * from int1.t1 as x join proj.pred as m join int2.t2 as z on z.a = x.a and z.b = 1 join proj.pred2 as m2 where m.a = 1 and m2.b = 2 and z.c = 3",
@@ -442,6 +447,26 @@ def observe(sql, cat_kw, I, require_model=True):
             rd = ap.row_dict or {}
             rdt = '; '.join(f'({I(("col", c))}, {I(("const", "Constant", repr(v)))})' for c, v in rd.items())
             cm = ap.columns_map or {}
+            # judge (property text): every top-level equality of the model's ON clause between a model column and a column of
+            # something joined before it is in the model's column mapping
+            on_ast = refs[k][2]
+            malias = (r.alias.parts[-1] if r.alias is not None else r.parts[-1]).lower()
+
+            def conj(x):
+                if isinstance(x, BinaryOperation) and x.op.lower() == 'and':
+                    return conj(x.args[0]) + conj(x.args[1])
+                return [x] if x is not None else []
+            for cj in conj(on_ast):
+                if isinstance(cj, BinaryOperation) and cj.op == '=' and all(isinstance(a_, Identifier) and len(a_.parts) >= 2 for a_ in cj.args):
+                    a0, a1 = cj.args
+                    q0_, q1_ = a0.parts[-2].lower(), a1.parts[-2].lower()
+                    if (q0_ == malias) == (q1_ == malias):
+                        continue
+                    mcol, other = (a0, a1) if q0_ == malias else (a1, a0)
+                    got_ = {str(k_).lower(): v_ for k_, v_ in cm.items()}.get(mcol.parts[-1].lower())
+                    if got_ is None or [x_.lower() for x_ in got_.parts[-2:]] != [x_.lower() for x_ in other.parts[-2:]]:
+                        facts['cm_missing'] = f'{cj.to_string()} -> expected {mcol.parts[-1]}: {other.to_string()}, columns_map = ' + \
+                                              str({k_: v_.to_string() for k_, v_ in cm.items()})
             cmt = []
             for c, ident in cm.items():
                 cc = tr.col(ident)
@@ -656,6 +681,11 @@ def run(tier, seed, replay=None):
         if ob['facts'].get('unsafe_in'):
             R.violation({'sql': sql, 'catalog': cname, 'what': 'the joined table of a right / full join is pre-filtered by the values of the '
                          'other side (' + ob['facts']['unsafe_in'] + '): unmatched rows that the join must keep are lost'})
+            break
+    for sql, cname, ob in rows:
+        if ob['facts'].get('cm_missing'):
+            R.violation({'sql': sql, 'catalog': cname, 'what': 'a join condition between a model column and a column of the data it is joined to is '
+                         'not in the model\'s column mapping: ' + ob['facts']['cm_missing']})
             break
     for sql, cname, ob in rows:
         f = ob['facts']
